@@ -20,6 +20,7 @@ import (
 	epochstypes "github.com/elys-network/elys/x/epochs/types"
 	oracletypes "github.com/elys-network/elys/x/oracle/types"
 	perptypes "github.com/elys-network/elys/x/perpetual/types"
+	toktypes "github.com/elys-network/elys/x/tokenomics/types"
 )
 
 func init() { modes["scn"] = runScn }
@@ -44,6 +45,9 @@ func (sc *Scn) Tx(kind string, signer *Acct, f J, msgs ...sdk.Msg) uint32 {
 }
 
 func (sc *Scn) TxDt(dt time.Duration, kind string, signer *Acct, f J, msgs ...sdk.Msg) uint32 {
+	if !sc.ok {
+		return 999 // a block failed earlier: the chain has halted
+	}
 	if f == nil {
 		f = J{}
 	}
@@ -75,6 +79,9 @@ func (sc *Scn) Rebegin(extra ...PoolRef) {
 
 // Empty advances the chain by one empty block.
 func (sc *Scn) Empty(dt time.Duration) {
+	if !sc.ok {
+		return
+	}
 	if !emitBlock(sc.w, sc.out, sc.id, nil, dt, sc.stats) {
 		sc.ok = false
 	}
@@ -347,3 +354,33 @@ func init() {
 }
 
 func init() { scenarios["c11-saturated-pool-topups"] = scenarios["c09-saturated-pool-topups"] }
+
+func init() {
+	// C18: liquidity mining in Eden is on (inflation configured, Eden rewards enabled on the pools) and the liquidity providers of
+	// one pool leave until only dust is left: the pool's Eden allocation per block falls between 0 and 1 base unit.
+	scenarios["c18-eden-rewards-dust-pool"] = func(sc *Scn) {
+		w := sc.w
+		lp := w.Accts[0]
+		w.Seed(func(ctx sdk.Context) {
+			bpy := w.App.ParameterKeeper.GetParams(ctx).TotalBlocksPerYear
+			w.App.TokenomicsKeeper.SetTimeBasedInflation(ctx, toktypes.TimeBasedInflation{StartBlockHeight: 1, EndBlockHeight: 1_000_000_000, Description: "verif",
+				Authority: w.Gov, Inflation: &toktypes.InflationEntry{LmRewards: bpy * 1_000_000, IcsStakingRewards: bpy * 1_000_000, CommunityFund: bpy * 1000}})
+			enableEdenRewards(w, ctx)
+		})
+		sc.Empty(5 * time.Second)
+		sc.Empty(5 * time.Second)
+		pool := sc.std.Pools[0]
+		for _, keep := range []int64{1_000, 100_000, 10_000_000, 1_000_000_000} {
+			// leave 1/keep of the shares in the pool
+			lpc := w.App.CommitmentKeeper.GetCommitments(w.Ctx(), lp.Addr)
+			have := lpc.GetCommittedAmountForDenom(pool.ShareDen)
+			exit := have.Sub(have.QuoRaw(keep))
+			if !exit.IsPositive() {
+				break
+			}
+			sc.Tx("amm.exit", lp, J{"pool": pool.Id, "shareIn": exit.String()}, &ammtypes.MsgExitPool{Sender: lp.Addr.String(), PoolId: pool.Id, MinAmountsOut: sdk.Coins{}, ShareAmountIn: exit})
+			sc.Empty(5 * time.Second)
+			sc.Empty(time.Hour)
+		}
+	}
+}
